@@ -166,13 +166,19 @@ def run_case_full(case):
         if k in cfg:
             adj[k] = cfg[k]
     cfg["url_prefix_norm"] = norm_prefix(cfg.get("url_prefix", ""))
-    o = observe([stream], adj=adj, eof=False, unix=unix)
+    cut = case.get("cut")
+    if cut is not None and (not isinstance(cut, int) or not (0 < cut < len(stream))):
+        raise C.CaseInvalid("cut")
+    # the environ is the image of the message however its bytes arrived: optionally delivered in two reads
+    o = observe([stream[:cut], stream[cut:]] if cut else [stream], adj=adj, eof=False, unix=unix)
     fails = []
 
     def fail(sig, detail):
         fails.append({"sig": "C07/" + sig, "detail": detail})
 
     labels = set()
+    if cut:
+        labels.add("two-reads")
     if o.exception or o.handle_errors:
         fail("raises", "%r %r" % (o.exception, o.handle_errors))
         return fails, True, labels
@@ -269,6 +275,13 @@ def case_strategy():
         if draw(st.integers(0, 2)) == 0:
             # a second request on the same connection: its environ is the image of *its* message (nothing carried over)
             case["stream2"] = G.render(draw(G.request(targets=target_strategy(), body_strategy=G.body_bytes(64), obs_fold=False)))
+        total = len(case["stream"]) + len(case.get("stream2") or "")
+        how = draw(st.integers(0, 5))
+        if how == 0 and total > 1:
+            case["cut"] = draw(st.integers(1, total - 1))
+        elif how in (1, 2) and case.get("stream2") and len(case["stream"]) > 4:
+            # around the end of the first message (inside its last CRLF / one byte into the next message)
+            case["cut"] = len(case["stream"]) + draw(st.sampled_from([-3, -2, -1, 1, 2]))
         return case
 
     return build()
